@@ -1,16 +1,17 @@
 -------------------------- MODULE MC_CtiWrap_cases --------------------------
 (* (S->C) the finite case set replayed into the real obj_to_cti: every token  *)
-(* length sequence of <= 3 tokens over {1,5,28,29,30} and of 4 tokens over    *)
-(* {1,28,30}, with every                                                      *)
+(* length sequence of <= 3 tokens over {1,5,28,29,30,35} and of 4 tokens over *)
+(* {1,28,30,35} (35 = longer than the widths 30, 31), with every              *)
 (* (line_len, max_line_len) in {30,31,60,80,100}^2.  Each case carries what   *)
 (* TLC computed with the modelled greedy algorithm: `ref`, the <<length,     *)
 (* words>> of every line.  The replay reports how many real layouts equal it  *)
 (* (evidence that CtiWrap.tla describes the code); the verdict on the real    *)
-(* output is Trace_CtiWrap's, not layout equality.                            *)
+(* output is Trace_CtiWrap's, not layout equality.  The quick tier replays a  *)
+(* rotating third of the set (by seed), the thorough tier all.                *)
 EXTENDS CtiWrap, Json, IOUtils
 CW == {30, 31, 60, 80, 100}
-CL == {1, 5, 28, 29, 30}
-LenSeqs == UNION {[1..n -> CL] : n \in 0..3} \cup [1..4 -> {1, 28, 30}]
+CL == {1, 5, 28, 29, 30, 35}
+LenSeqs == UNION {[1..n -> CL] : n \in 0..3} \cup [1..4 -> {1, 28, 30, 35}]
 Ref(lens, l, m) == LET g == GreedyLayout(lens, l, m) IN [i \in 1..Len(g) |-> <<g[i].len, g[i].nw>>]
 Cases == {[lens |-> s, ll |-> l, ml |-> m, ref |-> Ref(s, l, m)] : s \in LenSeqs, l \in CW, m \in CW}
 ASSUME JsonSerialize(IOEnv.OUT_FILE, SXL!SetToSeq(Cases))
